@@ -50,7 +50,7 @@ ELEMENT = [r"<std::vec::Vec as std::ops::Index.*>::index(_mut)?$", r"<\[T\] as s
 LOOKUP = [r"std::collections::HashMap::(get|get_mut|remove|get_key_value)$", r"<std::collections::HashMap as std::ops::Index.*>::index$",
           r"std::collections::BTreeMap::(get|get_mut|remove)$", r"std::collections::HashSet::(get|take)$"]
 # higher-order std functions: closure params bound to the element of arg0 ; result = closure return for these
-HOF_MAP_RESULT = [r".*::map$", r".*::filter_map$", r".*::flat_map$", r".*::map_or$", r".*::map_or_else$", r".*::unwrap_or_else$", r".*::or_else$", r".*::find_map$", r".*::then$"]
+HOF_MAP_RESULT = [r".*::and_then$", r".*::map$", r".*::filter_map$", r".*::flat_map$", r".*::map_or$", r".*::map_or_else$", r".*::unwrap_or_else$", r".*::or_else$", r".*::find_map$", r".*::then$"]
 
 _TR = [(re.compile(p), a) for p, a in TRANSPARENT]
 _EL = [re.compile(p) for p in ELEMENT]
